@@ -390,8 +390,13 @@ loadlistfd(int fd, char ***bufa, checkfunc cf)
 			const char *s[] = {"input file contains invalid entry '", buf + k, "'", NULL};
 
 			log_writen(LOG_WARNING, s);
-			/* mark this entry as invalid */
-			buf[k++] = '\0';
+			/* mark this entry as invalid: wipe it completely, otherwise
+			 * everything after the first character would stay in the
+			 * buffer and be taken as an entry of its own */
+			const size_t l = strlen(buf + k);
+
+			memset(buf + k, '\0', l);
+			k += l;
 			haserr = 1;
 		}
 		k += strlen(buf + k) + 1;
